@@ -25,9 +25,9 @@ Lemma scan_spec c : forall i usepr oldrow diagind pm pp op dg pm' pp' op' dg', 0
   (match dg' with
    | Some d => dg' = dg \/ ((i <= d < i + length c)%nat /\ row_at c (d - i) = diagind)
    | None => dg = None /\ forall x, In x c -> fst x <> diagind end) /\
-  (op' = op \/ (usepr = true /\ (i <= op' < i + length c)%nat /\ row_at c (op' - i) = oldrow)) /\
+  (op' = op \/ (usepr = true /\ exists k, op' = Some k /\ (i <= k < i + length c)%nat /\ row_at c (k - i) = oldrow)) /\
   (usepr = true -> (forall x, In x c -> fst x <> oldrow) -> op' = op) /\
-  (usepr = true -> (exists x, In x c /\ fst x = oldrow) -> (i <= op' < i + length c)%nat /\ row_at c (op' - i) = oldrow).
+  (usepr = true -> (exists x, In x c /\ fst x = oldrow) -> exists k, op' = Some k /\ (i <= k < i + length c)%nat /\ row_at c (k - i) = oldrow).
 Proof.
   induction c as [|[row mag] r IH]; intros i usepr oldrow diagind pm pp op dg pm' pp' op' dg' Hpm H; cbn [scan] in H.
   - inversion H; subst. cbn [maxmag length]. split; [lia|]. split; [lia|]. split; [auto|]. split; [|split; [now left | split; [auto|]]].
@@ -48,25 +48,25 @@ Proof.
            ++ right. split; [lia|]. unfold row_at in *. replace (d - i)%nat with (S (d - S i))%nat by lia. exact D2.
         -- destruct D as [D1 D2]. destruct (row =? diagind) eqn:Er; [discriminate|]. split; auto.
            intros x [<-|Hx]; [cbn; now apply Z.eqb_neq | now apply D2].
-      * destruct F as [F|(F1 & F2 & F3)].
+      * destruct F as [F|(F1 & k & F0 & F2 & F3)].
         -- destruct (usepr && (row =? oldrow)) eqn:Eu; [|now left]. right. apply andb_true_iff in Eu. destruct Eu as [Eu1 Eu2].
-           subst op'. split; auto. split; [lia|]. unfold row_at. replace (i - i)%nat with 0%nat by lia. cbn. now apply Z.eqb_eq.
-        -- right. split; auto. split; [lia|]. unfold row_at in *. replace (op' - i)%nat with (S (op' - S i))%nat by lia. exact F3.
+           split; auto. exists i. split; auto. split; [lia|]. unfold row_at. replace (i - i)%nat with 0%nat by lia. cbn. now apply Z.eqb_eq.
+        -- right. split; auto. exists k. split; auto. split; [lia|]. unfold row_at in *. replace (k - i)%nat with (S (k - S i))%nat by lia. exact F3.
       * intros Hu Hall. rewrite (G Hu) by (intros x Hx; apply Hall; now right).
         rewrite Hu. cbn [andb]. destruct (row =? oldrow) eqn:Er; auto. apply Z.eqb_eq in Er. exfalso. apply (Hall (row, mag)); [now left | exact Er].
       * intros Hu (x & Hx & Ex). destruct (Z.eq_dec row oldrow) as [Er|Er].
         -- (* the head matches: either a later candidate overrides it (K) or the index i is kept (G) *)
            destruct (existsb (fun y => fst y =? oldrow) r) eqn:Ee.
            ++ apply existsb_exists in Ee. destruct Ee as (y & Hy & Ey). apply Z.eqb_eq in Ey.
-              destruct (K Hu (ex_intro _ y (conj Hy Ey))) as [K1 K2]. split; [lia|].
-              unfold row_at in *. replace (op' - i)%nat with (S (op' - S i))%nat by lia. exact K2.
+              destruct (K Hu (ex_intro _ y (conj Hy Ey))) as (k & K0 & K1 & K2). exists k. split; auto. split; [lia|].
+              unfold row_at in *. replace (k - i)%nat with (S (k - S i))%nat by lia. exact K2.
            ++ assert (Hnone : forall y, In y r -> fst y <> oldrow).
               { intros y Hy Ey. rewrite <- not_true_iff_false in Ee. apply Ee. apply existsb_exists. exists y. split; auto. now apply Z.eqb_eq. }
               rewrite (G Hu Hnone). rewrite Hu. cbn [andb]. apply Z.eqb_eq in Er. rewrite Er.
-              split; [lia|]. unfold row_at. rewrite Nat.sub_diag. cbn. now apply Z.eqb_eq.
+              exists i. split; auto. split; [lia|]. unfold row_at. rewrite Nat.sub_diag. cbn. now apply Z.eqb_eq.
         -- destruct Hx as [<-|Hx]; [cbn in Ex; congruence|].
-           destruct (K Hu (ex_intro _ x (conj Hx Ex))) as [K1 K2]. split; [lia|].
-           unfold row_at in *. replace (op' - i)%nat with (S (op' - S i))%nat by lia. exact K2.
+           destruct (K Hu (ex_intro _ x (conj Hx Ex))) as (k & K0 & K1 & K2). exists k. split; auto. split; [lia|].
+           unfold row_at in *. replace (k - i)%nat with (S (k - S i))%nat by lia. exact K2.
     + apply Z.ltb_ge in E. apply IH in H; [|lia]. destruct H as (A & B & C & D & F & G & K). cbn [maxmag length].
       split; [lia|]. split; [|split; [|split; [|split; [|split]]]].
       * intros Hlt. destruct (B Hlt) as [B1 B2]. split; [lia|]. unfold mag_at in *.
@@ -79,25 +79,25 @@ Proof.
            ++ right. split; [lia|]. unfold row_at in *. replace (d - i)%nat with (S (d - S i))%nat by lia. exact D2.
         -- destruct D as [D1 D2]. destruct (row =? diagind) eqn:Er; [discriminate|]. split; auto.
            intros x [<-|Hx]; [cbn; now apply Z.eqb_neq | now apply D2].
-      * destruct F as [F|(F1 & F2 & F3)].
+      * destruct F as [F|(F1 & k & F0 & F2 & F3)].
         -- destruct (usepr && (row =? oldrow)) eqn:Eu; [|now left]. right. apply andb_true_iff in Eu. destruct Eu as [Eu1 Eu2].
-           subst op'. split; auto. split; [lia|]. unfold row_at. replace (i - i)%nat with 0%nat by lia. cbn. now apply Z.eqb_eq.
-        -- right. split; auto. split; [lia|]. unfold row_at in *. replace (op' - i)%nat with (S (op' - S i))%nat by lia. exact F3.
+           split; auto. exists i. split; auto. split; [lia|]. unfold row_at. replace (i - i)%nat with 0%nat by lia. cbn. now apply Z.eqb_eq.
+        -- right. split; auto. exists k. split; auto. split; [lia|]. unfold row_at in *. replace (k - i)%nat with (S (k - S i))%nat by lia. exact F3.
       * intros Hu Hall. rewrite (G Hu) by (intros x Hx; apply Hall; now right).
         rewrite Hu. cbn [andb]. destruct (row =? oldrow) eqn:Er; auto. apply Z.eqb_eq in Er. exfalso. apply (Hall (row, mag)); [now left | exact Er].
       * intros Hu (x & Hx & Ex). destruct (Z.eq_dec row oldrow) as [Er|Er].
         -- (* the head matches: either a later candidate overrides it (K) or the index i is kept (G) *)
            destruct (existsb (fun y => fst y =? oldrow) r) eqn:Ee.
            ++ apply existsb_exists in Ee. destruct Ee as (y & Hy & Ey). apply Z.eqb_eq in Ey.
-              destruct (K Hu (ex_intro _ y (conj Hy Ey))) as [K1 K2]. split; [lia|].
-              unfold row_at in *. replace (op' - i)%nat with (S (op' - S i))%nat by lia. exact K2.
+              destruct (K Hu (ex_intro _ y (conj Hy Ey))) as (k & K0 & K1 & K2). exists k. split; auto. split; [lia|].
+              unfold row_at in *. replace (k - i)%nat with (S (k - S i))%nat by lia. exact K2.
            ++ assert (Hnone : forall y, In y r -> fst y <> oldrow).
               { intros y Hy Ey. rewrite <- not_true_iff_false in Ee. apply Ee. apply existsb_exists. exists y. split; auto. now apply Z.eqb_eq. }
               rewrite (G Hu Hnone). rewrite Hu. cbn [andb]. apply Z.eqb_eq in Er. rewrite Er.
-              split; [lia|]. unfold row_at. rewrite Nat.sub_diag. cbn. now apply Z.eqb_eq.
+              exists i. split; auto. split; [lia|]. unfold row_at. rewrite Nat.sub_diag. cbn. now apply Z.eqb_eq.
         -- destruct Hx as [<-|Hx]; [cbn in Ex; congruence|].
-           destruct (K Hu (ex_intro _ x (conj Hx Ex))) as [K1 K2]. split; [lia|].
-           unfold row_at in *. replace (op' - i)%nat with (S (op' - S i))%nat by lia. exact K2.
+           destruct (K Hu (ex_intro _ x (conj Hx Ex))) as (k & K0 & K1 & K2). exists k. split; auto. split; [lia|].
+           unfold row_at in *. replace (k - i)%nat with (S (k - S i))%nat by lia. exact K2.
 Qed.
 
 Lemma nonneg_mag_at c i : nonneg c -> 0 <= mag_at c i.
@@ -129,14 +129,14 @@ Hypothesis Hn : nonneg c.
 Let r := pivotL c usepr oldrow diagind thr.
 
 Lemma piv_cases :
-  exists pm pp op dg, scan c 0 usepr oldrow diagind 0 0%nat 0%nat None = (pm, pp, op, dg) /\
+  exists pm pp op dg, scan c 0 usepr oldrow diagind 0 0%nat None None = (pm, pp, op, dg) /\
     pm = maxmag c /\ (0 < pm -> (pp < length c)%nat /\ mag_at c pp = pm) /\ (pm <= 0 -> pp = 0%nat) /\
     (match dg with Some d => (d < length c)%nat /\ row_at c d = diagind | None => forall x, In x c -> fst x <> diagind end) /\
-    (op = 0%nat \/ (usepr = true /\ (op < length c)%nat /\ row_at c op = oldrow)) /\
-    (usepr = true -> (forall x, In x c -> fst x <> oldrow) -> op = 0%nat) /\
-    (usepr = true -> (exists x, In x c /\ fst x = oldrow) -> (op < length c)%nat /\ row_at c op = oldrow).
+    (op = None \/ (usepr = true /\ exists k, op = Some k /\ (k < length c)%nat /\ row_at c k = oldrow)) /\
+    (usepr = true -> (forall x, In x c -> fst x <> oldrow) -> op = None) /\
+    (usepr = true -> (exists x, In x c /\ fst x = oldrow) -> exists k, op = Some k /\ (k < length c)%nat /\ row_at c k = oldrow).
 Proof.
-  destruct (scan c 0 usepr oldrow diagind 0 0%nat 0%nat None) as [[[pm pp] op] dg] eqn:Es.
+  destruct (scan c 0 usepr oldrow diagind 0 0%nat None None) as [[[pm pp] op] dg] eqn:Es.
   exists pm, pp, op, dg. split; auto.
   apply scan_spec in Es; [|lia]. destruct Es as (A & B & C & D & F & G & K).
   pose proof (maxmag_nonneg c). split; [lia|]. split; [|split; [|split; [|split; [|split]]]].
@@ -145,9 +145,9 @@ Proof.
   - destruct dg as [d|].
     + destruct D as [D|[D1 D2]]; [discriminate|]. split; [lia|]. now rewrite Nat.sub_0_r in D2.
     + now destruct D.
-  - destruct F as [F|(F1 & F2 & F3)]; [now left | right]. split; auto. split; [lia|]. now rewrite Nat.sub_0_r in F3.
+  - destruct F as [F|(F1 & k & F0 & F2 & F3)]; [now left | right]. split; auto. exists k. split; auto. split; [lia|]. now rewrite Nat.sub_0_r in F3.
   - exact G.
-  - intros Hu Hex. destruct (K Hu Hex) as [K1 K2]. split; [lia|]. now rewrite Nat.sub_0_r in K2.
+  - intros Hu Hex. destruct (K Hu Hex) as (k & K0 & K1 & K2). exists k. split; auto. split; [lia|]. now rewrite Nat.sub_0_r in K2.
 Qed.
 
 (* C06: the column is reported singular exactly when every candidate is exactly zero *)
@@ -158,11 +158,11 @@ Proof.
   - cbn. apply Z.eqb_eq in E. split; auto. intros _. congruence.
   - apply Z.eqb_neq in E.
     assert (pr_singular
-     (let '(pivptr1, usepr1) := if usepr then (if negb (mag_at c op =? 0) && (thr <=? mag_at c op) then (op, true) else (pp, false)) else (pp, false) in
+     (let '(pivptr1, usepr1) := if usepr then match op with Some o => if negb (mag_at c o =? 0) && (thr <=? mag_at c o) then (o, true) else (pp, false) | None => (pp, false) end else (pp, false) in
       if usepr1 then mkPR pivptr1 oldrow true false
       else mkPR (match dg with Some d => if negb (mag_at c d =? 0) && (thr <=? mag_at c d) then d else pivptr1 | None => pivptr1 end)
                 (row_at c (match dg with Some d => if negb (mag_at c d =? 0) && (thr <=? mag_at c d) then d else pivptr1 | None => pivptr1 end)) false false) = false).
-    { destruct usepr; [destruct (negb _ && _)|]; cbn; reflexivity. }
+    { destruct usepr; [destruct op as [o|]; [destruct (negb _ && _)|]|]; destruct dg; cbn; try reflexivity; destruct (negb _ && _); reflexivity. }
     rewrite H. split; [discriminate | intros; congruence].
 Qed.
 
@@ -179,13 +179,11 @@ Proof.
                    (k < length c)%nat /\ thr <= mag_at c k /\ 0 < mag_at c k).
   { intros k Lk E. apply andb_true_iff in E. destruct E as [E1 E2]. apply negb_true_iff in E1. apply Z.eqb_neq in E1.
     apply Z.leb_le in E2. pose proof (nonneg_mag_at c k Hn). repeat split; auto. lia. }
-  destruct usepr.
-  - destruct (negb (mag_at c op =? 0) && (thr <=? mag_at c op)) eqn:Eo.
-    + cbn [pr_ptr]. apply Hgood; auto. destruct Hop as [->|(_ & L & _)]; auto. lia.
-    + cbn [pr_ptr]. destruct dg as [d|]; auto. destruct Hdg as [Ld _].
-      destruct (negb (mag_at c d =? 0) && (thr <=? mag_at c d)) eqn:Ed; auto.
-  - cbn [pr_ptr]. destruct dg as [d|]; auto. destruct Hdg as [Ld _].
-    destruct (negb (mag_at c d =? 0) && (thr <=? mag_at c d)) eqn:Ed; auto.
+  assert (Hop' : forall o, op = Some o -> (o < length c)%nat).
+  { intros o E. destruct Hop as [Hop|(_ & k & Hk & L & _)]; [congruence|]. rewrite E in Hk. inversion Hk; subst. exact L. }
+  destruct usepr; [destruct op as [o|]; [destruct (negb (mag_at c o =? 0) && (thr <=? mag_at c o)) eqn:Eo|]|].
+  all: try (destruct dg as [d|]; [destruct Hdg as [Ld _]; destruct (negb (mag_at c d =? 0) && (thr <=? mag_at c d)) eqn:Ed|]).
+  all: cbn [pr_ptr]; auto.
 Qed.
 
 (* C02: every multiplier |x_i| / |x_p| is at most 1/u when thresh = u * pivmax (exact product), 0 < u = un/ud *)
@@ -223,9 +221,9 @@ Proof.
   intros Hu ND Hs Lo Ro Mo To. assert (Hmax : maxmag c <> 0) by (intros E; apply piv_singular_iff in E; congruence).
   unfold r, pivotL in *. destruct piv_cases as (pm & pp & op & dg & Es & Hpm & _ & _ & _ & _ & _ & Hk). rewrite Es in *.
   assert (E0 : pm =? 0 = false) by (apply Z.eqb_neq; lia). rewrite E0 in *.
-  destruct (Hk Hu) as [Lop Rop].
+  destruct (Hk Hu) as (k & Hop & Lop & Rop).
   { exists (nth o c (EMPTYZ, 0)). split; [now apply nth_In | exact Ro]. }
-  assert (op = o) by (apply (NoDup_row_at c); auto; congruence). subst op. rewrite Hu in *.
+  assert (k = o) by (apply (NoDup_row_at c); auto; congruence). subst k op. rewrite Hu in *.
   assert (E : negb (mag_at c o =? 0) && (thr <=? mag_at c o) = true).
   { apply andb_true_iff. split; [apply negb_true_iff; now apply Z.eqb_neq | now apply Z.leb_le]. }
   rewrite E. cbn. auto.
@@ -237,19 +235,41 @@ Theorem piv_usepr_dropped : pr_usepr r = true ->
 Proof.
   unfold r, pivotL. destruct piv_cases as (pm & pp & op & dg & Es & _). rewrite Es.
   destruct (pm =? 0); [cbn; discriminate|].
-  destruct usepr; [|destruct dg; cbn; discriminate].
-  destruct (negb (mag_at c op =? 0) && (thr <=? mag_at c op)) eqn:E.
+  destruct usepr; [|destruct dg as [d|]; [destruct (negb _ && _)|]; cbn; discriminate].
+  destruct op as [o|]; [|destruct dg as [d|]; [destruct (negb _ && _)|]; cbn; discriminate].
+  destruct (negb (mag_at c o =? 0) && (thr <=? mag_at c o)) eqn:E.
   - cbn. intros _. apply andb_true_iff in E. destruct E as [E1 E2]. apply negb_true_iff in E1. apply Z.eqb_neq in E1.
     apply Z.leb_le in E2. auto.
-  - destruct dg; cbn; discriminate.
+  - destruct dg as [d|]; [destruct (negb _ && _)|]; cbn; discriminate.
+Qed.
+
+(* the requested pivot row must be a candidate: a structurally absent old pivot is never "kept" *)
+Theorem piv_usepr_absent : usepr = true -> (forall x, In x c -> fst x <> oldrow) -> pr_usepr r = false.
+Proof.
+  intros Hu Habs. unfold r, pivotL. destruct piv_cases as (pm & pp & op & dg & Es & _ & _ & _ & _ & _ & Hnone & _). rewrite Es.
+  destruct (pm =? 0); [reflexivity|]. rewrite (Hnone Hu Habs), Hu.
+  destruct dg as [d|]; [destruct (negb _ && _)|]; reflexivity.
 Qed.
 End PIV.
 
-(* C06 / finding F2: for a column without any candidate row (nsupr = nsupc) the code reports "singular" but takes
-   lsub_ptr[pivptr] with pivptr = nsupc, i.e. index 0 of an EMPTY candidate list: a read past the column's list *)
-Theorem piv_empty_column_reads_past_list_refuted :
-  exists c u o d t, let r := pivotL c u o d t in pr_singular r = true /\ ~ (pr_ptr r < length c)%nat.
-Proof. exists [], false, 0, 0, 0. cbn. split; [reflexivity | lia]. Qed.
+(* C06 (after the repair of finding F2): in the singular case the recorded row is a candidate row, or the diagonal
+   row when the column has no candidate at all -- no subscript is read outside the column's list *)
+Theorem piv_singular_row c usepr oldrow diagind thr :
+  let r := pivotL c usepr oldrow diagind thr in
+  pr_singular r = true ->
+  (c <> [] -> (pr_ptr r < length c)%nat /\ pr_row r = row_at c (pr_ptr r)) /\ (c = [] -> pr_row r = diagind).
+Proof.
+  cbn zeta. unfold pivotL.
+  destruct (scan c 0 usepr oldrow diagind 0 0%nat None None) as [[[pm pp] op] dg] eqn:Es.
+  pose proof Es as Es'. apply scan_spec in Es'; [|lia]. destruct Es' as (A & B & C & _).
+  destruct (pm =? 0) eqn:E.
+  - cbn [pr_singular pr_ptr pr_row]. intros _. apply Z.eqb_eq in E. rewrite (C ltac:(lia)). split.
+    + intros Hne. destruct c as [|x t]; [congruence|]. cbn [length]. split; [lia|]. reflexivity.
+    + intros ->. reflexivity.
+  - intros H. exfalso. revert H.
+    destruct usepr; [destruct op as [o|]; [destruct (negb _ && _)|]|]; destruct dg as [d|]; cbn; try discriminate;
+      destruct (negb _ && _); cbn; discriminate.
+Qed.
 
 (* non-vacuity: a column where the diagonal is not the largest entry but meets the threshold u = 1/2 *)
 Example piv_example :
